@@ -288,6 +288,35 @@ class FSCM:
             "row_sum": ROW_SUM,
         }
 
+    def derive(self, redraw_nodes, policy_nodes, mseed: int) -> "FSCM":
+        """A source domain: same exogenous variables; the functions of ``redraw_nodes`` are redrawn; every node of
+        ``policy_nodes`` gets a new mechanism that depends on its private noise only (a stochastic policy that cuts
+        all incoming arrows, directed and bidirected)."""
+        import copy
+
+        other = copy.copy(self)
+        other.f = dict(self.f)
+        other.pa = dict(self.pa)
+        other.lpa = dict(self.lpa)
+        rng = SplitMix(mseed)
+        for n in self.names:
+            if n in policy_nodes:
+                other.pa[n] = []
+                other.lpa[n] = []
+            elif n not in redraw_nodes:
+                continue
+            ncard = self.ecard["N_" + n]
+            shape = [self.card[p] for p in other.pa[n]] + [2 for _ in other.lpa[n]] + [ncard]
+            rows = int(np.prod(shape[:-1])) if shape[:-1] else 1
+            tab = np.zeros((rows, ncard), dtype=np.int64)
+            for r in range(rows):
+                perm = rng.shuffle(list(range(self.card[n])))
+                tab[r] = perm + [rng.below(self.card[n]) for _ in range(ncard - self.card[n])]
+            other.f[n] = tab.reshape(shape)
+        other._solve = {}
+        other._tables = {}
+        return other
+
     def solutions(self, do: dict):
         """List (aligned with self.configs) of value tuples of the observed variables in the sub-model do(do)."""
         key = tuple(sorted(do.items()))
